@@ -9,6 +9,8 @@ package keeper
 // the commitment ledger); nothing is minted or burnt (no mint/burn site is reachable).
 //@ func (Keeper).ClaimRewards
 //@ modifies module:commitment, module:masterchef, bank-balances
+//@ callers C13/claims-come-from-the-owner-or-the-position-owner: (msgServer).ClaimRewards, (Keeper).ForceCloseLong
+//@ callers-assumed C13: paying out (the solvency half of the property) is not decided here
 //@ frame-only
 
 // Fee conversion in block processing: each swap works on a pool just read from the store.
@@ -31,10 +33,97 @@ package keeper
 //@ modifies nothing
 //@ frame-only
 
+// C13: a distribution raises the pool's reward per committed share by the amount spread over the
+// committed total, rounded down (so the total credited never exceeds the amount), and credits
+// nothing when nothing is committed.
 //@ func (Keeper).UpdateAccPerShare
+//@ callers-assumed C13: that the amount handed in is what was collected or funded for the block (fund movement) is not decided here
 //@ modifies table:masterchef:types.GetPoolRewardInfoKey
-//@ frame-only
+//@ letold acc0 := ite(prHas(ctx, poolId, rewardDenom), prRow(ctx, poolId, rewardDenom).PoolAccRewardPerShare, 0)
+//@ letold had0 := prHas(ctx, poolId, rewardDenom)
+//@ let total := k.GetPoolTotalCommit(ctx, poolId)
+//@ ensures C13/credit-is-the-amount-over-the-committed-total-rounded-down: total != 0 ==> prHas(ctx, poolId, rewardDenom) && prRow(ctx, poolId, rewardDenom).PoolAccRewardPerShare == acc0 + (amount * ammtypes.OneShare * 1000000000000000000) / total
+//@ ensures C13/nothing-credited-when-nothing-is-committed: total == 0 ==> prHas(ctx, poolId, rewardDenom) == had0 && ite(had0, prRow(ctx, poolId, rewardDenom).PoolAccRewardPerShare == acc0, true)
 
 //@ func (Keeper).GetAllExternalIncentives
 //@ modifies nothing
 //@ frame-only
+
+// ---- C13: rewards accrue only while shares are committed ------------------------------------------------
+//@ define mcPoolInfoHas(ctx, p) := has(ctx, "masterchef:types.GetPoolInfoKey", p)
+//@ define mcPoolInfo(ctx, p) := row(ctx, "masterchef:types.GetPoolInfoKey", "types.PoolInfo", p)
+//@ define prHas(ctx, p, d) := has(ctx, "masterchef:types.GetPoolRewardInfoKey", p, d)
+//@ define prRow(ctx, p, d) := row(ctx, "masterchef:types.GetPoolRewardInfoKey", "types.PoolRewardInfo", p, d)
+//@ define urHas(ctx, u, p, d) := has(ctx, "masterchef:types.GetUserRewardInfoKey", u, p, d)
+// Reward rows sit under the keys their own fields name.
+//@ rowinv C13/poolRewardKey table masterchef:types.GetPoolRewardInfoKey row types.PoolRewardInfo : row.PoolId == key0 && row.RewardDenom == key1
+//@ rowinv C13/userRewardKey table masterchef:types.GetUserRewardInfoKey row types.UserRewardInfo : unbech32(row.User) == key0 && row.PoolId == key1 && row.RewardDenom == key2
+//@ define urRow(ctx, u, p, d) := row(ctx, "masterchef:types.GetUserRewardInfoKey", "types.UserRewardInfo", u, p, d)
+
+// The share-change hooks settle every reward denom the pool can accrue: the base currency, Eden when
+// enabled, and every external reward denom recorded for the pool.
+//@ func (Keeper).GetRewardDenoms
+//@ forall d Str
+//@ modifies nothing
+//@ ensures C13/every-external-reward-denom-is-settled: mcPoolInfoHas(ctx, poolId) && d != "ueden" && anyOf(mcPoolInfo(ctx, poolId).ExternalRewardDenoms, x, x == d) ==> anyOf(result0, x, x == d)
+//@ ensures C13/base-currency-is-settled: mcPoolInfoHas(ctx, poolId) ==> anyOf(result0, x, x == k.GetBaseCurrencyDenom(ctx))
+//@ ensures C13/eden-is-settled-when-enabled: mcPoolInfoHas(ctx, poolId) && mcPoolInfo(ctx, poolId).EnableEdenRewards ==> anyOf(result0, x, x == "ueden")
+
+// A share change first settles what the OLD balance earned up to now, then checkpoints the NEW balance
+// against the current reward per share: shares committed now earn nothing from earlier distributions.
+//@ func (Keeper).AfterDepositPerReward
+//@ letold acc0 := ite(prHas(ctx, poolId, rewardDenom), prRow(ctx, poolId, rewardDenom).PoolAccRewardPerShare, 0)
+//@ letold pend0 := ite(urHas(ctx, user, poolId, rewardDenom), urRow(ctx, user, poolId, rewardDenom).RewardPending, 0)
+//@ letold debt0 := ite(urHas(ctx, user, poolId, rewardDenom), urRow(ctx, user, poolId, rewardDenom).RewardDebt, 0)
+//@ let bal := k.GetPoolBalance(ctx, poolId, user)
+//@ ensures C13/deposit-settles-what-the-old-balance-earned: urHas(ctx, user, poolId, rewardDenom) && urRow(ctx, user, poolId, rewardDenom).RewardPending == pend0 + (acc0 * (bal - amount) - debt0) / ammtypes.OneShare
+//@ ensures C13/deposit-checkpoints-the-new-balance: urRow(ctx, user, poolId, rewardDenom).RewardDebt == decMul(acc0, bal * 1000000000000000000)
+//@ ensures C13/deposit-keeps-the-pool-accumulator: prHas(ctx, poolId, rewardDenom) == old(prHas(ctx, poolId, rewardDenom)) && ite(prHas(ctx, poolId, rewardDenom), prRow(ctx, poolId, rewardDenom).PoolAccRewardPerShare, 0) == acc0
+
+//@ func (Keeper).AfterWithdrawPerReward
+//@ letold acc0 := ite(prHas(ctx, poolId, rewardDenom), prRow(ctx, poolId, rewardDenom).PoolAccRewardPerShare, 0)
+//@ letold pend0 := ite(urHas(ctx, user, poolId, rewardDenom), urRow(ctx, user, poolId, rewardDenom).RewardPending, 0)
+//@ letold debt0 := ite(urHas(ctx, user, poolId, rewardDenom), urRow(ctx, user, poolId, rewardDenom).RewardDebt, 0)
+//@ let bal := k.GetPoolBalance(ctx, poolId, user)
+//@ ensures C13/withdraw-settles-what-the-old-balance-earned: urHas(ctx, user, poolId, rewardDenom) && urRow(ctx, user, poolId, rewardDenom).RewardPending == pend0 + (acc0 * (bal + amount) - debt0) / ammtypes.OneShare
+//@ ensures C13/withdraw-checkpoints-the-new-balance: urRow(ctx, user, poolId, rewardDenom).RewardDebt == decMul(acc0, bal * 1000000000000000000)
+//@ ensures C13/withdraw-keeps-the-pool-accumulator: prHas(ctx, poolId, rewardDenom) == old(prHas(ctx, poolId, rewardDenom)) && ite(prHas(ctx, poolId, rewardDenom), prRow(ctx, poolId, rewardDenom).PoolAccRewardPerShare, 0) == acc0
+
+// ... and they do so for every reward denom GetRewardDenoms names for the pool.
+//@ func (Keeper).AfterDeposit
+//@ callers-assumed C13: the hooks of the share-changing modules call this after every change of committed shares (not decided here)
+//@ forall d Str
+//@ let bal := k.GetPoolBalance(ctx, poolId, user)
+//@ ensures C13/deposit-checkpoints-every-reward-denom-of-the-pool: anyOf(resultOf("GetRewardDenoms", 1), x, x == d) ==> urHas(ctx, user, poolId, d) && urRow(ctx, user, poolId, d).RewardDebt == decMul(ite(prHas(ctx, poolId, d), prRow(ctx, poolId, d).PoolAccRewardPerShare, 0), bal * 1000000000000000000)
+
+//@ func (Keeper).AfterWithdraw
+//@ callers-assumed C13: the hooks of the share-changing modules call this after every change of committed shares (not decided here)
+//@ forall d Str
+//@ let bal := k.GetPoolBalance(ctx, poolId, user)
+//@ ensures C13/withdraw-checkpoints-every-reward-denom-of-the-pool: anyOf(resultOf("GetRewardDenoms", 1), x, x == d) ==> urHas(ctx, user, poolId, d) && urRow(ctx, user, poolId, d).RewardDebt == decMul(ite(prHas(ctx, poolId, d), prRow(ctx, poolId, d).PoolAccRewardPerShare, 0), bal * 1000000000000000000)
+
+// The two steps of a settlement, and who may run them.
+//@ func (Keeper).UpdateUserRewardPending
+//@ callers C13/settled-only-by-the-share-change-hooks: (Keeper).AfterDepositPerReward, (Keeper).AfterWithdrawPerReward
+//@ ensures C13/pending-step-keeps-the-checkpoint: urHas(ctx, user, poolId, rewardDenom) && urRow(ctx, user, poolId, rewardDenom).RewardDebt == old(ite(urHas(ctx, user, poolId, rewardDenom), urRow(ctx, user, poolId, rewardDenom).RewardDebt, 0))
+
+//@ func (Keeper).UpdateUserRewardDebt
+//@ callers C13/checkpointed-only-by-the-share-change-hooks: (Keeper).AfterDepositPerReward, (Keeper).AfterWithdrawPerReward
+//@ ensures C13/checkpoint-step-keeps-the-pending-amount: urHas(ctx, user, poolId, rewardDenom) && urRow(ctx, user, poolId, rewardDenom).RewardPending == old(ite(urHas(ctx, user, poolId, rewardDenom), urRow(ctx, user, poolId, rewardDenom).RewardPending, 0))
+
+// The stored rows are written by these functions only, from the places listed.
+//@ func (Keeper).SetUserRewardInfo
+//@ callers C13/user-reward-rows-written-only-by-settlement-and-claim: (Keeper).UpdateUserRewardPending, (Keeper).UpdateUserRewardDebt, (Keeper).ClaimRewards, InitGenesis
+//@ ensures C13/user-reward-row-stored-under-its-own-key: urHas(ctx, unbech32(userReward.User), userReward.PoolId, userReward.RewardDenom) && urRow(ctx, unbech32(userReward.User), userReward.PoolId, userReward.RewardDenom).RewardPending == userReward.RewardPending && urRow(ctx, unbech32(userReward.User), userReward.PoolId, userReward.RewardDenom).RewardDebt == userReward.RewardDebt
+
+//@ func (Keeper).RemoveUserRewardInfo
+//@ callers C13/user-reward-rows-removed-only-by-claim: (Keeper).ClaimRewards
+//@ ensures C13/user-reward-row-removed: !urHas(ctx, user, poolId, rewardDenom)
+
+//@ func (Keeper).SetPoolRewardInfo
+//@ callers C13/accumulator-written-only-by-the-crediting-function: (Keeper).UpdateAccPerShare, InitGenesis
+//@ ensures C13/pool-reward-row-stored-under-its-own-key: prHas(ctx, poolReward.PoolId, poolReward.RewardDenom) && prRow(ctx, poolReward.PoolId, poolReward.RewardDenom).PoolAccRewardPerShare == poolReward.PoolAccRewardPerShare
+
+//@ func (Keeper).RemovePoolRewardInfo
+//@ callers C13/accumulator-never-removed-by-module-code: 
+//@ ensures C13/pool-reward-row-removed: !prHas(ctx, poolId, rewardDenom)
